@@ -36,7 +36,11 @@ def run(chk):
     n = 80 if thorough else 20
     for k in range(n):
         cfg = W.random_config(rng, {"raw_mode": 1} if k % 10 == 9 else None)
-        if k % 2 == 0:
+        if k % 10 in (4, 8):
+            # clean path for 100 s with traffic in one direction only / none: the give-up timers (60 s on both sides) must not fire
+            cfg = W.random_config(rng, {"raw_mode": 1 if k % 20 < 10 else 0})
+            jobs.append((chk.seed * 2000 + k, cfg, {}, None, 2, False, ["uponly", "downonly", "idle"][(k // 10 + k) % 3]))
+        elif k % 2 == 0:
             jobs.append((chk.seed * 2000 + k, cfg, {}, None, 10 if thorough else 6, False, "clean"))
         else:
             fault = {"drop": rng.choice([0.1, 0.3, 0.6, 1.0]), "dup": rng.choice([0.0, 0.3]), "delay": rng.choice([0, 200, 2000]), "ms": rng.choice([5000, 15000, 40000])}
@@ -59,7 +63,12 @@ def run(chk):
         got_s = [f for _, f in r["tunw_s"]]
         got_c = [f for _, f in r["tunw_c"]]
         delivered += len(got_s) + len(got_c)
-        if r["scenario"] == "clean":
+        if r["scenario"] != "recovery":
+            if r["client_ret"] is not None:
+                chk.violation("C02 fails on the implementation: on a path that delivers every datagram intact and promptly the client left its tunnel loop (%s) after %d s (scenario %s: traffic in one direction only / idle; configuration %s, negotiated %s)"
+                              % (r["client_ret"], (r["end_ms"] - 1000000) // 1000, r["scenario"], r["cfg"], r["negotiated"]), r["log"], key="c02:clean-exit")
+                bad += 1
+                continue
             for side, sent, offered, got, up in (("server", r["accepted_c"], r["sent_c"], got_s, True), ("client", r["accepted_s"], r["sent_s"], got_c, False)):
                 must = [f for _, f in sent if fragments_needed(f, r, up) <= 12]
                 may = {f for _, f in offered}
